@@ -76,7 +76,11 @@ def plan(tier, seed):
                 for spell in ([sp] if sp else allowed):
                     pats = [spell.replace("{n}", str(sites[i])).replace("{abs}", "{proj}/pkg/code.py") for i in sub]
                     argv = ["{proj}", "--output", "{out}", "--codemod-include", j["cid"], "--path-" + mode, ",".join(pats)]
-                    jobs.append(dict(base, id=f"{j['cid']}|{mode}|{sub}|{spell}", files={"pkg/code.py": b64(j["src"].encode())}, argv=argv, mode=mode, sub=sub, spell=spell, monitors={"snap": False}))
+                    # the target directory as the user types it: canonical absolute path, relative to the cwd, ".", through a symlink, with a trailing slash
+                    targets = ("abs", "rel", "dot", "symlink", "trailing-slash", "dotdot")
+                    for tgt in ([rnd.choice(targets)] if tier == "quick" else (targets if spell != "{abs}:{n}" else ("abs", "trailing-slash"))):
+                        if spell == "{abs}:{n}" and tgt not in ("abs", "trailing-slash"): tgt = "abs"   # an absolute pattern presumes the canonical path
+                        jobs.append(dict(base, id=f"{j['cid']}|{mode}|{sub}|{spell}|{tgt}", files={"pkg/code.py": b64(j["src"].encode())}, argv=argv, mode=mode, sub=sub, spell=spell, target=tgt, monitors={"snap": False}))
     return jobs
 
 def site_text(text, i):
@@ -115,8 +119,8 @@ def finalize(stats, counters):
     for r in _raw:
         if r["kind"] == "change-line-mismatch": key = f"change-line-mismatch/{r['cm']}"
         elif r["cm"] in diag_fail: key = f"line-filter-not-applied/{r['cm']}"
-        elif r["filter_lost"]: key = f"line-pattern-not-matched/{r['spell']}-spelling"          # the pattern never reached the transformer
-        else: key = f"{r['kind']}/{r['cm']}/{r['spell']}-spelling"
+        elif r["filter_lost"]: key = f"line-pattern-not-matched/{r['spell']}-spelling" + ("" if r["job"].get("target", "abs") == "abs" else "/target-" + r["job"]["target"])          # the pattern never reached the transformer
+        else: key = f"{r['kind']}/{r['cm']}/{r['spell']}-spelling" + ("" if r["job"].get("target", "abs") == "abs" else "/target-" + r["job"]["target"])
         out.append(Violation("C13", key, r["what"], r["w"], jobs=[r["job"]]))
     extra = {"codemods_failing_a_diagnostic_case": sorted(diag_fail), "seeds_left_unjudged": dict(SKIPPED)}
     return out, extra, None
